@@ -635,17 +635,28 @@ def aggregate(S, cfg):
     asm.region = regs
     rl = {}
 
+    handed = {}
+
     def rr_min(r, t1, t2, ad=False):
         rl[id(r)] = S.pos('lim_region_rodded', 1e-4, 1e-2)
+        handed[id(r)] = (t1, t2, ad)
         return rl[id(r)], 'x'
 
     def ur_min(r, t1, t2, ad=False):
         rl[id(r)] = S.pos(f'lim_region_unrodded{len(rl)}', 1e-4, 1e-2)
+        handed[id(r)] = (t1, t2, ad)
         return rl[id(r)], 'y'
     with patched((A.region_rodded, 'calculate_min_dz', rr_min), (A.region_unrodded, 'calculate_min_dz', ur_min),
                  (A, 'min', sym_min)):
         ares, acode = A.calculate_min_dz(asm, T_lo, T_hi, False)
     S.holds('aggregate.assembly.every_region_asked', len(rl) == 3)
+    # every region's limit is evaluated at BOTH ends of the temperature range (inlet and estimated outlet) and with the
+    # assembly's adiabatic flag: the region functions take the minimum over the two temperatures they are handed
+    for j, k in enumerate(rl):
+        t1, t2, ad = handed[k]
+        S.eq(f'aggregate.assembly.region_handed_inlet_temperature[{j}]', t1, T_lo)
+        S.eq(f'aggregate.assembly.region_handed_outlet_temperature[{j}]', t2, T_hi)
+        S.holds(f'aggregate.assembly.region_handed_adiabatic_flag[{j}]', ad is False)
     prod = 1
     for k, v in rl.items():
         S.le(f'aggregate.assembly.le[{list(rl).index(k)}]', ares, v)
